@@ -5,6 +5,9 @@
    Redeem/Retype.v (typings, evaluation commutes with Value::prune), Redeem/RetypeEx.v, Redeem/Routes.v. *)
 From RS Require Import Lib.Tac Lib.Outcome Lib.Bits Ty.Ty Core.Prog
   Redeem.Finalize Redeem.PruneProg Redeem.PruneFix Redeem.Retype Redeem.RetypeEx Redeem.Routes.
+From RS Require Core.Term Core.Typing Core.Sem Core.Bounds Core.Limits Core.Machine
+  Infer.Constraints Infer.Infer Redeem.RetypeInfer Redeem.RetypeEnd Redeem.CoreBridge Redeem.MachineEnd
+  Redeem.RetypeKeep Redeem.PruneLoop Redeem.PruneLoopEx.
 Import ListNotations.
 Local Open Scope N_scope.
 
@@ -228,3 +231,372 @@ Print Assumptions C08_retype_run.
 (* 11. NOT proved (principality of inference, C04): the arrows Rust re-infers type the shrunk program and
    lie below the original ones.  Compared on the implementation on every generated case. *)
 Definition C08_retype_le_statement : Prop := retype_le_statement.
+
+(* ====================================================================== phase 2 *)
+(* 12. Re-typing connected to the reference inference of C04 (Infer/*.v).  The re-inferred arrows of a pruned
+   table are DEFINED as the result of Infer.infer on its retained nodes (RetypeInfer.infer_arrows; a node that is
+   not reachable from the root imposes no constraint, so a node shared between a kept and a dropped branch is
+   typed by its kept uses only). *)
+Import Infer.Constraints Infer.Infer Redeem.RetypeInfer Redeem.RetypeEnd.
+
+(* the computed set of retained nodes is reachability from the root *)
+Theorem C08_keepb_reach : forall (q : rprog) (root i : nat),
+  rwf q = true -> (i < length q)%nat -> (keepb q root i = true <-> reach q root i).
+Proof. exact keepb_reach. Qed.
+Print Assumptions C08_keepb_reach.
+
+(* inference succeeds on every table whose retained structure has a typing at all (infer_complete) *)
+Theorem C08_infer_retype_complete : forall (jt : jet_table) (q : rprog) (ar : arrows) (root : nat) (ro : bool),
+  rwf q = true -> (root < length q)%nat ->
+  struct_typed (jet_ty_of jt) q ar root -> words_small q root ->
+  (ro = true -> ar root = Some (One, One)) ->
+  exists tau0, infer jt (rootopt ro root) (tr q root) = Ok tau0.
+Proof. exact infer_retype_complete. Qed.
+Print Assumptions C08_infer_retype_complete.
+
+(* what it returns types the retained structure (infer_sound) *)
+Theorem C08_infer_retype_sound : forall (jt : jet_table) (q : rprog) (root : nat) (ro : bool)
+    (tau0 : list (option tarrow)),
+  rwf q = true -> (root < length q)%nat ->
+  (forall i h, reach q root i -> nth_error q i <> Some (RHole h)) ->
+  infer jt (rootopt ro root) (tr q root) = Ok tau0 ->
+  struct_typed (jet_ty_of jt) q (arrows_of tau0) root /\
+  (ro = true -> arrows_of tau0 root = Some (One, One)).
+Proof. exact infer_retype_sound. Qed.
+Print Assumptions C08_infer_retype_sound.
+
+(* ... and lies pointwise below every typing of the retained structure (infer_least: principal types) *)
+Theorem C08_infer_retype_least : forall (jt : jet_table) (q : rprog) (ar : arrows) (root : nat) (ro : bool)
+    (tau0 : list (option tarrow)),
+  rwf q = true -> (root < length q)%nat ->
+  infer jt (rootopt ro root) (tr q root) = Ok tau0 ->
+  struct_typed (jet_ty_of jt) q ar root -> words_small q root ->
+  (ro = true -> ar root = Some (One, One)) ->
+  arrows_le q root (arrows_of tau0) ar.
+Proof. exact infer_retype_least. Qed.
+Print Assumptions C08_infer_retype_least.
+
+(* 13. THE STATEMENT LEFT OPEN IN PHASE 1, proved for the reference inference: the re-inferred arrows exist,
+   type the table with its witnesses shrunk by Value::prune, lie below the original arrows, keep the root
+   arrow of a program, and are the least typing of the structure *)
+Theorem C08_retype_le : forall (jt : jet_table) (q : rprog) (ar : arrows) (root : nat) (ro : bool),
+  rwf q = true -> (root < length q)%nat ->
+  typed_from (jet_ty_of jt) q ar root -> words_small q root ->
+  (ro = true -> ar root = Some (One, One)) ->
+  exists ar', infer_arrows jt ro q root = Some ar' /\
+    typed_from (jet_ty_of jt) (shrink ar' q) ar' root /\
+    arrows_le q root ar' ar /\
+    (ro = true -> ar' root = Some (One, One)) /\
+    (forall ar2, struct_typed (jet_ty_of jt) q ar2 root -> (ro = true -> ar2 root = Some (One, One)) ->
+       arrows_le q root ar' ar2).
+Proof. exact retype_le. Qed.
+Print Assumptions C08_retype_le.
+
+(* the body of C08_retype_le_statement with [infer] := the reference inference ... *)
+Theorem C08_retype_le_reference : forall (jt : jet_table) (q : rprog) (ar : arrows),
+  let root := (length q - 1)%nat in
+  rwf q = true -> q <> [] -> words_small q root -> ar root = Some (One, One) ->
+  typed_from (jet_ty_of jt) q ar root ->
+  typed_from (jet_ty_of jt) (shrink (ref_infer jt q) q) (ref_infer jt q) root /\
+  arrows_le q root (ref_infer jt q) ar.
+Proof. exact retype_le_reference. Qed.
+Print Assumptions C08_retype_le_reference.
+
+(* ... whereas the definition as it was written in phase 1 quantifies over an arbitrary function [infer] and is
+   therefore false: it stays in this file only as the historical statement *)
+Theorem C08_retype_le_statement_too_strong : ~ C08_retype_le_statement.
+Proof. exact retype_le_statement_too_strong. Qed.
+Print Assumptions C08_retype_le_statement_too_strong.
+
+(* for a program it makes no difference whether the root constraint 1 -> 1 takes part in the inference *)
+Theorem C08_infer_root_irrelevant : forall (jt : jet_table) (q : rprog) (ar : arrows) (root : nat),
+  rwf q = true -> (root < length q)%nat ->
+  typed_from (jet_ty_of jt) q ar root -> words_small q root -> ar root = Some (One, One) ->
+  exists a0 a1, infer_arrows jt false q root = Some a0 /\ infer_arrows jt true q root = Some a1 /\
+    forall i, reach q root i -> a0 i = a1 i.
+Proof. exact infer_root_irrelevant. Qed.
+Print Assumptions C08_infer_root_irrelevant.
+
+(* 14. END TO END on tables.  Any entry point, any input: run, prune (any rounds / classes / tracker content
+   covering the trace), re-infer, shrink: the same node maps the shrunk input to the shrunk output with the same
+   trace, and every commitment root is unchanged *)
+Theorem C08_prune_retype_eval : forall (HS : hashes) (jet_sem : N -> N -> sval -> option sval)
+    (hash_val : list N -> sval) (jt : jet_table),
+  (forall f j s t v o, jet_ty_of jt f j = Some (s, t) ->
+     has_ty v s = true -> jet_sem f j v = Some o -> has_ty o t = true) ->
+  (forall h, has_ty (hash_val h) (word_ty 8) = true) ->
+  forall (ids : list (nat -> nat)) (p : rprog) (ar : arrows) (root fuel : nat) (v o : sval) (E : list event)
+    (s t : ty) (T : list event),
+  rwf p = true -> (root < length p)%nat ->
+  typed_from (jet_ty_of jt) p ar root -> words_small p root ->
+  ar root = Some (s, t) -> has_ty v s = true ->
+  eval jet_sem hash_val fuel p (cmrs HS p) root v = Ok (o, E) -> incl E T ->
+  let q := prune_rounds HS ids p T in
+  exists ar' s' t' v' o',
+    infer_arrows jt false q root = Some ar' /\
+    arrows_le q root ar' ar /\
+    typed_from (jet_ty_of jt) (shrink ar' q) ar' root /\
+    ar' root = Some (s', t') /\ ty_le s' s = true /\ ty_le t' t = true /\
+    sprune v s' = Some v' /\ sprune o t' = Some o' /\
+    eval jet_sem hash_val fuel (shrink ar' q) (cmrs HS p) root v' = Ok (o', E) /\
+    cmrs HS (shrink ar' q) = cmrs HS p.
+Proof. exact prune_retype_eval. Qed.
+Print Assumptions C08_prune_retype_eval.
+
+(* programs: the pruned program, re-typed by reference inference, witnesses shrunk, runs to the unit value
+   with the same trace and has the same commitment root *)
+Theorem C08_prune_retype_run : forall (HS : hashes) (jet_sem : N -> N -> sval -> option sval)
+    (hash_val : list N -> sval) (jt : jet_table),
+  (forall f j s t v o, jet_ty_of jt f j = Some (s, t) ->
+     has_ty v s = true -> jet_sem f j v = Some o -> has_ty o t = true) ->
+  (forall h, has_ty (hash_val h) (word_ty 8) = true) ->
+  forall (ids : list (nat -> nat)) (p : rprog) (ar : arrows) (o : sval) (E : list event),
+  let root := (length p - 1)%nat in
+  rwf p = true -> p <> [] ->
+  typed_from (jet_ty_of jt) p ar root -> words_small p root -> ar root = Some (One, One) ->
+  run HS jet_sem hash_val p = Ok (o, E) ->
+  let q := prune_rounds HS ids p E in
+  exists ar',
+    infer_arrows jt true q root = Some ar' /\
+    arrows_le q root ar' ar /\
+    typed_from (jet_ty_of jt) (shrink ar' q) ar' root /\
+    ar' root = Some (One, One) /\
+    run HS jet_sem hash_val (shrink ar' q) = Ok (SU, E) /\
+    root_cmr HS (shrink ar' q) = root_cmr HS p.
+Proof. exact prune_retype_run. Qed.
+Print Assumptions C08_prune_retype_run.
+
+(* every premise is satisfiable: the program of finding F-C08 (node 3 shared between the kept and the dropped
+   branch of case node 12); the arrows computed by reference inference on the pruned table are the ones a
+   decoder infers (node 3 : 1 -> 1), witness 1 loses its 8 bits, the re-typed program runs with the same trace *)
+Theorem C08_shared_prog_inferred :
+  let run_ex := run sym_hashes ex_jet_sem ex_hash_val in
+  let root := 13%nat in
+  rwf shared_prog = true /\ shared_prog <> [] /\
+  typed_from (jet_ty_of ex_jt) shared_prog shared_arrows_old root /\
+  words_small shared_prog root /\ shared_arrows_old root = Some (One, One) /\
+  exists o E, run_ex shared_prog = Ok (o, E) /\
+    let q := prune_rounds sym_hashes [fun i => i; fun i => i] shared_prog E in
+    nth_error q 12 = Some (RAssertL 10 []) /\
+    exists ar', infer_arrows ex_jt true q root = Some ar' /\
+      map ar' retained = map shared_arrows_new retained /\
+      ar' 3%nat = Some (One, One) /\ shared_arrows_old 3%nat = Some (word_ty 3, word_ty 3) /\
+      nth_error (shrink ar' q) 1 = Some (RWitness (CV One SU)) /\
+      run_ex (shrink ar' q) = Ok (SU, E).
+Proof. exact shared_prog_inferred. Qed.
+Print Assumptions C08_shared_prog_inferred.
+
+Theorem C08_ex_jt_typed : forall f j s t v o, jet_ty_of ex_jt f j = Some (s, t) ->
+  has_ty v s = true -> ex_jet_sem f j v = Some o -> has_ty o t = true.
+Proof. exact ex_jt_typed. Qed.
+Print Assumptions C08_ex_jt_typed.
+
+(* 15. The table semantics of this family is the big-step semantics of C05 (Core/Sem.v) on the unfolded term *)
+Import Core.Term Core.Typing Core.Sem Core.Bounds Core.Limits Core.Machine Redeem.CoreBridge Redeem.MachineEnd.
+
+Theorem C08_unfold_typed : forall (jet_ty : N -> N -> option arrow) (fam : N) (p : rprog) (ar : arrows)
+    (root : nat) (C : list (list N)),
+  rwf p = true -> (root < length p)%nat ->
+  typed_from jet_ty p ar root -> fam_ok fam p root ->
+  forall fuel i : nat, (i < fuel)%nat -> reach p root i ->
+  exists (t : term) (s t' : ty),
+    ar i = Some (s, t') /\ unfold_r fuel p ar C i = Some t /\ typed (jet_ty1 jet_ty fam) t s t'.
+Proof. exact unfold_typed. Qed.
+Print Assumptions C08_unfold_typed.
+
+Theorem C08_eval_agree : forall (jet_ty : N -> N -> option arrow) (fam : N)
+    (jet_sem : N -> N -> sval -> option sval) (p : rprog) (ar : arrows) (root : nat) (C : list (list N)),
+  typed_from jet_ty p ar root -> fam_ok fam p root ->
+  forall (fe fu i : nat) (v : sval) (t : term),
+  reach p root i -> unfold_r fu p ar C i = Some t ->
+  match PruneProg.eval jet_sem hash_val_core fe p C i v with
+  | Ok (o, _) => Sem.eval (jet_sem1 fam jet_sem) t v = ROk o
+  | Err e => Sem.eval (jet_sem1 fam jet_sem) t v = RErr (sem_of_eerr e)
+  | _ => True
+  end.
+Proof. exact eval_agree. Qed.
+Print Assumptions C08_eval_agree.
+
+Theorem C08_hash_val_core_typed : forall h : list N, has_ty (hash_val_core h) (word_ty 8) = true.
+Proof. exact hash_val_core_typed. Qed.
+Print Assumptions C08_hash_val_core_typed.
+
+(* 16. THE BIT MACHINE (Core/Machine.v, through C05's exec_correct).  Any entry point, any input: the machine
+   returns [o] on the unfolded original and Value::prune of [o] on the pruned, re-typed program run on the
+   pruned input - for every build profile, every jet cost table, every initial buffer content and every padded
+   encoding of the input, provided the program passes the limit check *)
+Theorem C08_pruned_machine_eval : forall (HS : hashes) (jet_sem : N -> N -> sval -> option sval)
+    (jt : jet_table) (fam : N),
+  (forall f j s t v o, jet_ty_of jt f j = Some (s, t) ->
+     has_ty v s = true -> jet_sem f j v = Some o -> has_ty o t = true) ->
+  forall (ids : list (nat -> nat)) (p : rprog) (ar : arrows) (root fuel : nat) (v o : sval) (E : list event)
+    (s t : ty) (T : list event),
+  rwf p = true -> (root < length p)%nat ->
+  typed_from (jet_ty_of jt) p ar root -> words_small p root -> fam_ok fam p root ->
+  ar root = Some (s, t) -> has_ty v s = true ->
+  PruneProg.eval jet_sem hash_val_core fuel p (cmrs HS p) root v = Ok (o, E) -> incl E T ->
+  let q := prune_rounds HS ids p T in
+  exists ar' s' t' v' o' t0 t1,
+    infer_arrows jt false q root = Some ar' /\ ar' root = Some (s', t') /\
+    ty_le s' s = true /\ ty_le t' t = true /\ sprune v s' = Some v' /\ sprune o t' = Some o' /\
+    unfold_r (length p) p ar (cmrs HS p) root = Some t0 /\ typed (jet_ty1 (jet_ty_of jt) fam) t0 s t /\
+    unfold_r (length p) (shrink ar' q) ar' (cmrs HS p) root = Some t1 /\
+    typed (jet_ty1 (jet_ty_of jt) fam) t1 s' t' /\
+    machine_returns jet_sem fam t0 s t v o /\ machine_returns jet_sem fam t1 s' t' v' o'.
+Proof. exact pruned_machine_eval. Qed.
+Print Assumptions C08_pruned_machine_eval.
+
+(* [machine_returns] spelled out *)
+Theorem C08_machine_returns_def : forall (jet_sem : N -> N -> sval -> option sval) (fam : N) (t0 : term)
+    (s t : ty) (v o : sval),
+  machine_returns jet_sem fam t0 s t v o <->
+  (forall prof jet_cost,
+    check_program prof (bw s) (bw t) (bounds jet_cost t0) = Ok tt ->
+    forall m0, length m0 = N.to_nat (machine_cells jet_cost t0) ->
+      (forall pbits, padded_of s v pbits ->
+         exists st bits, machine_exec prof jet_cost (jet_sem1 fam jet_sem) t0 m0 (Some (s, pbits)) = Ok (st, bits) /\
+                         of_padded t bits = o /\ length bits = N.to_nat (width t)) /\
+      (width s = 0 ->
+         exists st bits, machine_exec prof jet_cost (jet_sem1 fam jet_sem) t0 m0 None = Ok (st, bits) /\
+                         of_padded t bits = o /\ length bits = N.to_nat (width t))).
+Proof. exact machine_returns_def. Qed.
+Print Assumptions C08_machine_returns_def.
+
+(* programs: the machine runs the original and the pruned, re-typed program to completion (no output bits) *)
+Theorem C08_pruned_machine_run : forall (HS : hashes) (jet_sem : N -> N -> sval -> option sval)
+    (jt : jet_table) (fam : N),
+  (forall f j s t v o, jet_ty_of jt f j = Some (s, t) ->
+     has_ty v s = true -> jet_sem f j v = Some o -> has_ty o t = true) ->
+  forall (ids : list (nat -> nat)) (p : rprog) (ar : arrows) (o : sval) (E : list event),
+  let root := (length p - 1)%nat in
+  rwf p = true -> p <> [] ->
+  typed_from (jet_ty_of jt) p ar root -> words_small p root -> fam_ok fam p root -> ar root = Some (One, One) ->
+  PruneProg.run HS jet_sem hash_val_core p = Ok (o, E) ->
+  let q := prune_rounds HS ids p E in
+  exists ar' t0 t1,
+    infer_arrows jt true q root = Some ar' /\ arrows_le q root ar' ar /\
+    root_cmr HS (shrink ar' q) = root_cmr HS p /\
+    PruneProg.run HS jet_sem hash_val_core (shrink ar' q) = Ok (SU, E) /\
+    unfold_r (length p) p ar (cmrs HS p) root = Some t0 /\ typed (jet_ty1 (jet_ty_of jt) fam) t0 One One /\
+    unfold_r (length p) (shrink ar' q) ar' (cmrs HS p) root = Some t1 /\
+    typed (jet_ty1 (jet_ty_of jt) fam) t1 One One /\
+    forall prof jet_cost,
+      (check_program prof (bw One) (bw One) (bounds jet_cost t0) = Ok tt ->
+       forall m0, length m0 = N.to_nat (machine_cells jet_cost t0) ->
+         exists st, machine_exec prof jet_cost (jet_sem1 fam jet_sem) t0 m0 None = Ok (st, [])) /\
+      (check_program prof (bw One) (bw One) (bounds jet_cost t1) = Ok tt ->
+       forall m0, length m0 = N.to_nat (machine_cells jet_cost t1) ->
+         exists st, machine_exec prof jet_cost (jet_sem1 fam jet_sem) t1 m0 None = Ok (st, [])).
+Proof. exact pruned_machine_run. Qed.
+Print Assumptions C08_pruned_machine_run.
+
+(* satisfiable: the program of finding F-C08 on the machine; the pruned program needs fewer cells *)
+Theorem C08_shared_prog_machine :
+  let root := 13%nat in
+  fam_ok 1 shared_prog root /\
+  exists o E, PruneProg.run sym_hashes ex_jet_sem hash_val_core shared_prog = Ok (o, E) /\
+    let q := prune_rounds sym_hashes [fun i => i; fun i => i] shared_prog E in
+    exists ar' t0 t1,
+      infer_arrows ex_jt true q root = Some ar' /\
+      unfold_r 14 shared_prog shared_arrows_old (cmrs sym_hashes shared_prog) root = Some t0 /\
+      unfold_r 14 (shrink ar' q) ar' (cmrs sym_hashes shared_prog) root = Some t1 /\
+      check_program Debug (bw One) (bw One) (bounds ex_cost t0) = Ok tt /\
+      check_program Debug (bw One) (bw One) (bounds ex_cost t1) = Ok tt /\
+      (exists st, machine_exec Debug ex_cost (jet_sem1 1 ex_jet_sem) t0
+                    (repeat true (N.to_nat (machine_cells ex_cost t0))) None = Ok (st, [])) /\
+      (exists st, machine_exec Debug ex_cost (jet_sem1 1 ex_jet_sem) t1
+                    (repeat true (N.to_nat (machine_cells ex_cost t1))) None = Ok (st, [])) /\
+      extra_cells (bounds ex_cost t1) < extra_cells (bounds ex_cost t0).
+Proof. exact shared_prog_machine. Qed.
+Print Assumptions C08_shared_prog_machine.
+
+(* 17. RedeemNode::prune AS A LOOP OF PASSES (Redeem/PruneLoop.v), the model that is compared with the
+   implementation round by round (Redeem/PruneIhr.v instantiates it with SHA-256 identity roots).
+   One pass converts every node of the program it was given - also the nodes it drops - into the inference
+   context: its types are the principal types of the pruned structure together with the constraints of the dropped
+   nodes ([keep] = the nodes of the program the pass started from). *)
+Import Redeem.RetypeKeep Redeem.PruneLoop Redeem.PruneLoopEx.
+
+Theorem C08_infer_keep_le : forall (q : rprog) (_ : nat) (keep : nat -> bool),
+  rwf q = true ->
+  (forall i n c, keep i = true -> nth_error q i = Some n -> In c (rchildren n) -> keep c = true) ->
+  (forall i, keep i = true -> (i < length q)%nat) ->
+  forall (jt : jet_table) (ar : arrows),
+  struct_typed_on q keep (jet_ty_of jt) ar -> words_small_on q keep ->
+  exists ar', infer_keep jt keep q = Some ar' /\
+    struct_typed_on q keep (jet_ty_of jt) ar' /\
+    (forall i s t s' t', keep i = true -> ar i = Some (s, t) -> ar' i = Some (s', t') ->
+       ty_le s' s = true /\ ty_le t' t = true).
+Proof. exact infer_keep_le. Qed.
+Print Assumptions C08_infer_keep_le.
+
+(* For ANY hash functions and ANY way [analyse] of computing identity classes and witness streams: type inference
+   inside a pass never fails (error code 2 is unreachable), and when the loop stops without an error code the
+   program it returns runs to the unit value with the trace of the original run, carries typed witnesses, its
+   arrows are exactly the principal arrows of its own structure (what a decoder re-infers), the root is 1 -> 1 and
+   the commitment root is the original one *)
+Theorem C08_prune_full_sound : forall (HS : hashes)
+    (analyse : rprog -> arrows -> outcome N (list nat * list bool))
+    (jet_sem : N -> N -> sval -> option sval) (hash_val : list N -> sval) (jt : jet_table),
+  (forall f j s t v o, jet_ty_of jt f j = Some (s, t) ->
+     has_ty v s = true -> jet_sem f j v = Some o -> has_ty o t = true) ->
+  (forall h, has_ty (hash_val h) (word_ty 8) = true) ->
+  forall (E : list event) (p : rprog) (ar : arrows) (o : sval),
+  let root := (length p - 1)%nat in
+  rwf p = true -> p <> [] ->
+  typed_from (jet_ty_of jt) p ar root -> words_small p root -> ar root = Some (One, One) ->
+  PruneProg.run HS jet_sem hash_val p = Ok (o, E) ->
+  let st := prune_full_gen HS analyse jt p ar E in
+  ls_err st <> 2 /\
+  (ls_err st = 0 ->
+     PruneProg.run HS jet_sem hash_val (ls_prog st) = Ok (SU, E) /\
+     typed_from (jet_ty_of jt) (ls_prog st) (ls_arrows st) root /\
+     infer_arrows jt false (ls_prog st) root = Some (ls_arrows st) /\
+     ls_arrows st root = Some (One, One) /\
+     root_cmr HS (ls_prog st) = root_cmr HS p /\
+     (* one more structural pass with the classes of the RESULT changes nothing *)
+     exists cls' stream', analyse (ls_prog st) (ls_arrows st) = Ok (cls', stream') /\
+       prune_struct HS (ident_of_classes cls') (ls_prog st) E = ls_prog st).
+Proof. exact prune_full_sound. Qed.
+Print Assumptions C08_prune_full_sound.
+
+(* hence the anti-DoS rule for the program the loop returns, under its OWN identity classes, whenever these respect
+   the structure (equal class => equal form and children in equal classes: true of every structural hash) *)
+Theorem C08_prune_full_antidos : forall (HS : hashes)
+    (analyse : rprog -> arrows -> outcome N (list nat * list bool))
+    (jet_sem : N -> N -> sval -> option sval) (hash_val : list N -> sval) (jt : jet_table),
+  (forall f j s t v o, jet_ty_of jt f j = Some (s, t) ->
+     has_ty v s = true -> jet_sem f j v = Some o -> has_ty o t = true) ->
+  (forall h, has_ty (hash_val h) (word_ty 8) = true) ->
+  forall (E : list event) (p : rprog) (ar : arrows) (o : sval),
+  let root := (length p - 1)%nat in
+  rwf p = true -> p <> [] ->
+  typed_from (jet_ty_of jt) p ar root -> words_small p root -> ar root = Some (One, One) ->
+  PruneProg.run HS jet_sem hash_val p = Ok (o, E) ->
+  let st := prune_full_gen HS analyse jt p ar E in
+  ls_err st = 0 ->
+  exists cls' stream', analyse (ls_prog st) (ls_arrows st) = Ok (cls', stream') /\
+    (ident_congr (ident_of_classes cls') (ls_prog st) ->
+     forall j, reach (ls_prog st) (length (ls_prog st) - 1) j ->
+       class_executed (ident_of_classes cls') E j /\
+       (forall l r, nth_error (ls_prog st) j = Some (RCase l r) ->
+          taken (ident_of_classes cls') E j false = true /\ taken (ident_of_classes cls') E j true = true)).
+Proof. exact prune_full_antidos. Qed.
+Print Assumptions C08_prune_full_antidos.
+
+(* satisfiable, and the shape of finding F-C08b: the first pass leaves the shared node 3 at 2^8 -> 2^8, the
+   second pass (no structural change) makes the types principal and shrinks witness 1; three rounds in all *)
+Theorem C08_shared_prog_loop :
+  exists o E, PruneProg.run sym_hashes ex_jet_sem ex_hash_val shared_prog = Ok (o, E) /\
+    let st := prune_full_gen sym_hashes idx_analyse ex_jt shared_prog shared_arrows_old E in
+    ls_err st = 0 /\ length (ls_rounds st) = 3%nat /\
+    (let q1 := prune_struct sym_hashes (fun i => i) shared_prog E in
+     exists a1, infer_keep ex_jt (keepb shared_prog 13) q1 = Some a1 /\
+       a1 3%nat = Some (word_ty 3, word_ty 3) /\
+       nth_error (shrink a1 q1) 1 = Some (RWitness (CV (word_ty 3) w1_val))) /\
+    ls_arrows st 3%nat = Some (One, One) /\
+    nth_error (ls_prog st) 1 = Some (RWitness (CV One SU)) /\
+    nth_error (ls_prog st) 12 = Some (RAssertL 10 []) /\
+    PruneProg.run sym_hashes ex_jet_sem ex_hash_val (ls_prog st) = Ok (SU, E).
+Proof. exact shared_prog_loop. Qed.
+Print Assumptions C08_shared_prog_loop.
